@@ -579,6 +579,30 @@ Proof.
   - reflexivity.
 Qed.
 
+(* ---- values are immutable: adding nothing gives an equal VALUE (the implementation must allocate a new
+        object for it), and `a += b` on an OpSum computes exactly what `a + b` computes ---- *)
+Lemma v_add_empty_r : forall ra (s : list (op ra)),
+  v_add ra (VSum s) (VSum []) = Some (VSum s) /\ v_add ra (VSum s) (VL []) = Some (VSum s)
+  /\ v_sub ra (VSum s) (VSum []) = Some (VSum s) /\ v_add ra (VSum []) (VSum s) = Some (VSum s).
+Proof. intros. simpl. rewrite app_nil_r. auto. Qed.
+Lemma v_iadd_is_add : forall ra (s : list (op ra)) b, v_iadd ra (VSum s) b = v_add ra (VSum s) b.
+Proof. intros ra s b. destruct b; reflexivity. Qed.
+
+(* ---- split_elementary is a function of the operator and of the site map restricted to its dofs ---- *)
+Lemma sorted_sites_ext : forall (site1 site2 : dof -> Z) w,
+  (forall l, In l w -> site1 (l_dof l) = site2 (l_dof l)) -> sorted_sites site1 w = sorted_sites site2 w.
+Proof.
+  induction w; simpl; intros H; auto. rewrite (H a) by auto. rewrite IHw; auto.
+Qed.
+Lemma split_elementary_ext : forall ra (site1 site2 : dof -> Z) (o : op ra),
+  (forall l, In l (word o) -> site1 (l_dof l) = site2 (l_dof l)) ->
+  split_elementary ra site1 o = split_elementary ra site2 o.
+Proof.
+  intros ra site1 site2 o H. unfold split_elementary. rewrite (sorted_sites_ext site1 site2 (word o) H).
+  f_equal. apply map_ext. intros s. f_equal. apply filter_ext_in'. intros x Hx. unfold on_site.
+  rewrite (H x Hx). reflexivity.
+Qed.
+
 (* ---- __eq__ / __hash__ ---- *)
 Lemma zlist_eqb_eq : forall u v, zlist_eqb u v = true <-> u = v.
 Proof.
